@@ -98,7 +98,7 @@ func c10Run(c *h.Ctx) {
 	if c.Thorough() {
 		mtus = append(mtus, 130, 200, 300, 1024, 2000, 4000, 8799)
 	}
-	n := c.Pick(600, 30000)
+	n := c.Pick(3000, 30000)
 	for k := 0; k < n; k++ {
 		id := fmt.Sprintf("c%d", k)
 		if !c.Case(id) {
